@@ -124,11 +124,16 @@ class World:
         self.env.set_seed(rng.randrange(1000))
         self.handles = [proj.state_from_json(st_json)]
         self.memo = {}
+        self.answers = []   # observations handed out and retained by the caller: (object, projection when given)
 
-    def ask(self, kind, st, action):
+    def ask(self, kind, st, action, src=None):
         """deterministic questions (the composition used here has no random component when asked)"""
         if kind == 'Obs':
-            return snapshot(self.of(st, rng=np.random.default_rng(0)))
+            obs = self.of(st, rng=np.random.default_rng(0))
+            snap = snapshot(obs)
+            if len(self.answers) < 12:
+                self.answers.append([obs, snap, hash(obs.agent), src])
+            return snap
         nxt = transition_with_copy(self.tf, st, action, rng=np.random.default_rng(5))
         if kind == 'Reward':
             try:
@@ -165,7 +170,7 @@ class World:
                 mutate(self.rng, st, keep_cells=self.route)
             elif op in ('Obs', 'Reward', 'Terminate'):
                 key = (op, snapshot(st), action.name)
-                ans = self.ask(op, st, action)
+                ans = self.ask(op, st, action, src=h)
                 if key in self.memo and self.memo[key] != ans:
                     return f'step {step_i}: the same {op} question got a different answer after intervening calls'
                 self.memo[key] = ans
@@ -184,6 +189,16 @@ class World:
             for k, (b, a) in enumerate(zip(before, after)):
                 if b != a and not (op == 'Mutate' and k == h - 1):
                     return f'step {step_i}: {op} on handle {h} changed the value of handle {k + 1}'
+            for k, entry in enumerate(self.answers):
+                obs, snap, hsh, src = entry
+                if op == 'Mutate' and src == h:
+                    # observations share cell objects with the state they were computed from (GVHeap: Mutate may change
+                    # the answers asked about the mutated handle): take the answer as it is now
+                    entry[1], entry[2] = snapshot(obs), hash(obs.agent)
+                    continue
+                if snapshot(obs) != snap or hash(obs.agent) != hsh:
+                    return (f'step {step_i}: after {op} on handle {h}, an observation handed out earlier (answer {k + 1}) has changed: '
+                            f'a retained answer no longer equals the answer to the same question asked again')
             if op == 'Mutate' and before[h - 1] == after[h - 1]:
                 return f'step {step_i}: harness mutation had no effect'
             idsets = [identities(s) for s in self.handles]
@@ -239,10 +254,11 @@ def run(ctx, replay=None):
     ctx.assumptions += ['identity = python id() of grid, row lists, every GridObject (box contents included), Agent and Transform while all handles are alive']
     depth = 5 if ctx.quick else 6
     cfg = write_cfg(os.path.join(ctx.work, 'GVHeap.cfg'), specification='Spec', constants={'MaxHandles': 3, 'Depth': depth},
-                    invariants=['AliasFree', 'Emit'], properties=['OnlyMutateChanges', 'CopyEquals'])
+                    invariants=['AliasFree', 'Emit'], properties=['OnlyMutateChanges', 'CopyEquals', 'AnswersNeverChange'])
     res = run_tlc('GVHeap', cfg=cfg, workers=8, timeout=3000, heap='8g')
     ctx.add_tlc(res, f'GVHeap: all operation sequences of length {depth} over <= 3 handles')
-    behs = [[tuple(x) for x in t[1]] for t in res.find('HEAP')]
+    behs = sorted(set(tuple(tuple(x) for x in t[1]) for t in res.find('HEAP')))   # the same history is emitted once per choice of changed answers
+    behs = [list(b) for b in behs]
     if replay:
         art = json.load(open(replay))['replay']
         if 'behaviour' in art:
